@@ -136,7 +136,9 @@ def cond_ref(cfg):
                                                               n='cf')),
             E('has', n='cu'), E('has', n='va'), E('ns', n='ft'),
             E('eq', a=E('name', n='vn'), b=E('lit', v=7)),
-            E('lit', v=0), E('lit', v='x')]))
+            E('lit', v=0), E('lit', v='x'),
+            E('gt', a=E('name', n='vn'), b=E('lit', v=1)),
+            E('gt', a=E('lit', v=1), b=E('name', n='vn'))]))
     memo['cond'] = st.one_of(refs)
     return memo['cond']
 
